@@ -26,12 +26,12 @@ import (
 	httpclient "github.com/nuts-foundation/nuts-node/http/client"
 	"github.com/nuts-foundation/nuts-node/jsonld"
 	"github.com/nuts-foundation/nuts-node/pki"
-	"github.com/piprate/json-gold/ld"
 	"github.com/nuts-foundation/nuts-node/vcr"
 	"github.com/nuts-foundation/nuts-node/vcr/holder"
 	"github.com/nuts-foundation/nuts-node/vcr/verifier"
 	"github.com/nuts-foundation/nuts-node/vdr"
 	"github.com/nuts-foundation/nuts-node/vdr/resolver"
+	"github.com/piprate/json-gold/ld"
 )
 
 //verif:stub github.com/nuts-foundation/nuts-node/auth/services/irma.NewSignerAndVerifier => hIrmaNew
